@@ -339,6 +339,8 @@ def replay_regressions(ctx: Ctx, pid: str):
 def check(ctx: Ctx, pid: str, level: str, rule: str, assumptions: list[str], plans=None,
           extra_explore=None) -> int:
     lean = lean_stage(pid)
+    if pid == "C14":
+        ctx.classify_disagreement = c14_callbacks_differ
     replay_known_findings(ctx, pid)
     replay_regressions(ctx, pid)
     scale = THOROUGH_SCALE if ctx.thorough else 1
@@ -355,5 +357,41 @@ def check(ctx: Ctx, pid: str, level: str, rule: str, assumptions: list[str], pla
     return decide(ctx, lean, level, search=search, coverage_extra={"rule": rule}, assumptions=assumptions)
 
 
+def _flt_col(line: str) -> str | None:
+    i = line.find(" | flt=")
+    if i < 0:
+        return None
+    j = line.find(" | ", i + 3)
+    return line[i + 7:j if j >= 0 else None]
+
+
+def c14_callbacks_differ(impl_line: str, model_line: str) -> str | None:
+    """C14, model-relative: the model fires exactly one callback of the configured kind per
+    `_declare_fault` (C14 theorems); an implementation line that agrees with the model up to the fault
+    callback column but reports other callbacks (more, fewer, another kind) is a failing input"""
+    a, b = _flt_col(impl_line), _flt_col(model_line)
+    if a is None or b is None or a == b:
+        return None
+    return "C14:fault-callbacks-differ-from-model"
+
+
 def replay(ctx: Ctx, pid: str, path: str) -> int:
+    import json
+    obj = json.load(open(path))
+    if obj.get("model_relative"):
+        from suites import replay_session
+        sess = replay_session(obj)
+        try:
+            script, impl = sess.script_lines(), sess.impl_lines()
+        finally:
+            sess.close()
+        model = ctx.driver().run(script)
+        for a, b in zip(impl, model):
+            if a != b:
+                if pid == "C14" and c14_callbacks_differ(a, b) == obj.get("signature"):
+                    print(f"VIOLATION property={pid} replay={path}")
+                    return 1
+                break
+        print("not reproduced on the current tree")
+        return 0
     return generic_replay(ctx, path, replay_oracle(pid))
